@@ -52,7 +52,8 @@ def run_trace(trace_path, props, workdir, timeout=1800, xmx="3g"):
     for p in TRACE_PROPS:
         env["P_" + p] = "1" if p in props else "0"
     md = os.path.join(workdir, "md-%d-%d" % (os.getpid(), int(time.time() * 1000) % 100000000))
-    cmd = tlc_cmd(["-workers", "1", "-metadir", md, "-cleanup", "-noGenerateSpecTE", "-config", "Trace.cfg", "Trace.tla"], xmx, serial=True)
+    # -checkpoint 0: the depth-first StateDeque queue cannot be checkpointed (TLC aborts at its first checkpoint, 30 minutes in)
+    cmd = tlc_cmd(["-workers", "1", "-checkpoint", "0", "-metadir", md, "-cleanup", "-noGenerateSpecTE", "-config", "Trace.cfg", "Trace.tla"], xmx, serial=True)
     t0 = time.time()
     try:
         r = subprocess.run(cmd, cwd=SPEC, env=tlc_env(env), stdout=subprocess.PIPE, stderr=subprocess.STDOUT,
